@@ -197,6 +197,7 @@ def isPacked : Ty → Nat → Bool
     repr.explicitSize.isSome
       && !anyExplicitDiscr vs
       && !anyIgnoreV vs
+      && !anyClosedLiveV vs
       && decide (v ≥ minSafeVariants vs)
       && variantsFieldsPacked vs v
       && (!anyFieldsV vs || variantsChain (tagWidth repr vs.length) lay.size vs)
@@ -233,6 +234,9 @@ def anyFieldsV : VariantL → Bool
 def anyClosedLive : FieldL → Bool
   | .nil => false
   | .cons a _ _ fs => (a.rm == .no && decide (a.r.hi < u32Max)) || anyClosedLive fs
+def anyClosedLiveV : VariantL → Bool
+  | .nil => false
+  | .cons _ _ _ fs vs => anyClosedLive fs || anyClosedLiveV vs
 def anyUnversionedRemoved : FieldL → Bool
   | .nil => false
   | .cons a _ _ fs => (a.rm != .no && a.r.isAll) || anyUnversionedRemoved fs
